@@ -267,16 +267,16 @@ class AsmLayout:
         g1 = env.text(" RMB ", n1t, "\n")
         g2 = env.text(" RMB ", n2t, "\n")
         if shape == "2fwd":
-            lines = ["A LDA T,PCR\n", g1, "B LEAX U,PCR\n", g2, "T NOP\n", "U NOP\n"]
+            lines = ["P1 LDA T1,PCR\n", g1, "P2 LEAX T2,PCR\n", g2, "T1 NOP\n", "T2 NOP\n"]
             refs = {0: (4, False), 2: (5, False)}
         elif shape == "2cross":
-            lines = ["T NOP\n", g1, "A LDA U,PCR\n", "B LDA T,PCR\n", g2, "U NOP\n"]
+            lines = ["T1 NOP\n", g1, "P1 LDA T2,PCR\n", "P2 LDA T1,PCR\n", g2, "T2 NOP\n"]
             refs = {2: (5, False), 3: (0, False)}
         elif shape == "2bwd":
-            lines = ["T NOP\n", "U NOP\n", g1, "A LDA [T,PCR]\n", g2, "B LDY U,PCR\n"]
+            lines = ["T1 NOP\n", "T2 NOP\n", g1, "P1 LDA [T1,PCR]\n", g2, "P2 LDY T2,PCR\n"]
             refs = {3: (0, True), 5: (1, False)}
         else:
-            lines = ["A LDA U,PCR\n", g1, "T NOP\n", "B LDX A,PCR\n", g2, "C LEAY T,PCR\n", "U NOP\n"]
+            lines = ["P1 LDA T2,PCR\n", g1, "T1 NOP\n", "P2 LDX P1,PCR\n", g2, "P3 LEAY T1,PCR\n", "T2 NOP\n"]
             refs = {0: (6, False), 3: (0, False), 5: (2, False)}
         gaps = {k: v for k, v in enumerate(lines) if not isinstance(v, str) or " RMB " in v}
         gis = sorted(gaps)
